@@ -309,6 +309,27 @@ func (d *c20) finalizeBlock(fault int) {
 	d.tr.Event("block round=%d txns=%d burns=%d mints=%d merged: tickets=%d mints=%d", b.Round, ntx, len(burns), len(mints), merged.nTickets, merged.nMints)
 	d.mergeOracle(emitted, merged)
 
+	// a failed attempt to store a block's events is retried with the same in-memory event list
+	// (finalizeBlock keeps fb.Events on error): merging that list again must give the same result
+	if fault != 0 {
+		d.tr.Fault("events_merged_again_for_retry")
+		be2, _, err := d.edb.MergeEvents(append([]event.Event(nil), evs...), b.Round, b.Hash, ntx)
+		if err != nil {
+			d.viol("merge", "merge/error/retry", "%v", err)
+			return
+		}
+		merged2, bad := summarize(be2.Events())
+		if bad != "" {
+			d.viol("merge", "merge/unexpected-data-type/retry", "%s", bad)
+			return
+		}
+		nv := len(d.tr.Viol)
+		d.mergeOracle(emitted, merged2)
+		for _, v := range d.tr.Viol[nv:] {
+			v.Sig += "/retry"
+		}
+	}
+
 	// observation point 2: the sqlite store after ProcessEvents + Commit
 	var dbEvs []event.Event
 	for _, e := range evs {
